@@ -22,6 +22,43 @@ TOOLS = os.environ.get("VERIF_TOOLS", "/repo/tests")
 EXCLUDED = ("file.set.", "file.description", "cache.", "file.mmap_cache.", "file.read_cache.",
             "file.mmap_policy")
 
+SADUMP_CPU = """@cpu 0
+0000000000000000*58
+"gdth" "ldth" "idth"
+00000000*3
+"io_eip  "
+0000000000000000*10
+"cr4 "
+00000000*18
+"gdtl" "gdtx"
+"idtl" "idtx"
+"ldtl" "ldtx"
+"ldti"
+0000000000000000*6
+"eptp    "
+"eptp"
+00000000*5
+"smbs"
+"smid"
+"io"
+"hl"
+00000000*6
+"r15     " "r14     " "r13     " "r12     "
+"r11     " "r10     " "r9      " "r8      "
+"rax     " "rcx     " "rdx     " "rbx     "
+"rsp     " "rbp     " "rsi     " "rdi     "
+"io_mem_a"
+"io_m"
+"es  " "cs  " "ss  " "ds  " "fs  " "gs  "
+"ldtr"
+"tr  "
+"dr7     " "dr6     "
+"rip     "
+0000000000000d01
+0000000000000046
+"cr3     "
+0000000080050033"""
+
 UTS = """uts.sysname = Linux
 uts.nodename = test-node
 uts.release = 3.4.5-test
@@ -52,7 +89,7 @@ def page_text(rng, size):
 class Scenario:
     """One plain dump and the recipe for its twins; everything derives from `seed`."""
 
-    def __init__(self, seed, work):
+    def __init__(self, seed, work, fmt=None):
         self.seed = seed
         self.rng = random.Random(seed)
         self.dir = os.path.join(work, "s%d" % seed)
@@ -60,10 +97,13 @@ class Scenario:
         os.makedirs(self.dir)
         self.variants = []          # (name, [paths], description)
         self.pagesize = 4096
-        if self.rng.random() < 0.7:
+        k = self.rng.random() if fmt is None else {"diskdump": 0.0, "elf": 0.6, "sadump": 0.9}[fmt]
+        if k < 0.5:
             self.make_diskdump()
-        else:
+        elif k < 0.7:
             self.make_elf()
+        else:
+            self.make_sadump()
 
     def path(self, name):
         return os.path.join(self.dir, name)
@@ -128,6 +168,90 @@ class Scenario:
             bounds.append(rng.randint(lo, hi))
         bounds.append(self.npfn)
         return [(bounds[i], bounds[i + 1]) for i in range(nfiles)]
+
+    # -- SADUMP ---------------------------------------------------------------
+    def make_sadump(self):
+        """A single-partition SADUMP file and 2-, 3- and 4-disk sets of the same image
+        (same system id, disk set id and time stamp; disk k holds the dumped pages of its
+        inclusive PFN window, disk 1 also the headers and bitmaps).  Windows are cut where
+        runs of dumped pages start, end, and in the middle of runs."""
+        rng = self.rng
+        self.fmt = "sadump"
+        self.npfn = rng.choice([16, 24, 40, 64])
+        # runs of dumped pages separated by excluded / absent frames
+        kinds = []
+        pfn = 0
+        runs = []
+        while pfn < self.npfn:
+            gap = rng.choice([0, 1, 1, 2, 3]) if pfn else rng.choice([0, 0, 1])
+            for _ in range(min(gap, self.npfn - pfn)):
+                kinds.append(rng.choice(["exclude", None]))
+            pfn = len(kinds)
+            n = min(rng.choice([1, 1, 2, 3, 4, 6, 9]), self.npfn - pfn)
+            if n <= 0:
+                break
+            runs.append((pfn, pfn + n))
+            kinds += ["dump"] * n
+            pfn = len(kinds)
+            if len(runs) >= 8 and rng.random() < 0.5:
+                break
+        data = []
+        for pfn, kd in enumerate(kinds):
+            if kd == "dump":
+                data.append("@0x%x" % (pfn * 4096))
+                data.append(page_text(rng, 4096))
+            elif kd == "exclude":
+                data.append("@0x%x exclude" % (pfn * 4096))
+        data.append(SADUMP_CPU)
+        with open(self.path("data"), "w") as f:
+            f.write("\n".join(data) + "\n")
+        self.base = ("block_size = 4096\nmax_mapnr = 0x%x\nnr_cpus = 1\n"
+                     "timestamp = 2024-02-03 04:05:%02d\n"
+                     "system_id = 00112233-4455-6677-8899-aabbccddee%02x\n"
+                     "disk_set_id = 0f1e2d3c-4b5a-6978-8796-a5b4c3d2e1%02x\n"
+                     "DATA = %s\n" % (self.npfn, rng.randrange(60), rng.randrange(256),
+                                      rng.randrange(256), self.path("data")))
+        tool("mksadump", self.path("plain"), self.base + "type = single\n", self.dir)
+        self.variants.append(("plain", [self.path("plain")], "single partition"))
+        # interesting places to start a disk: first page of a run, the frame after a run,
+        # inside a run
+        starts = [a for a, b in runs if a > 0]
+        ends = [b for a, b in runs if b < self.npfn]
+        mids = [rng.randrange(a + 1, b) for a, b in runs if b - a >= 2]
+        for ndisk in (2, 3, 4):
+            pool = []
+            for lst in (starts, ends, mids):
+                if lst:
+                    pool.append(rng.choice(lst))
+            pool += starts + ends + mids + list(range(1, self.npfn))
+            cuts = []
+            for c in pool:
+                if c not in cuts and 0 < c < self.npfn:
+                    cuts.append(c)
+                if len(cuts) == ndisk - 1:
+                    break
+            if len(cuts) < ndisk - 1:
+                continue
+            cuts = sorted(cuts)
+            bounds = [0] + cuts + [self.npfn]
+            wins = [(bounds[i], bounds[i + 1] - 1) for i in range(ndisk)]
+            members = []
+            for i, (first, last) in enumerate(wins):
+                name = "set%d.%d" % (ndisk, i + 1)
+                tool("mksadump", self.path(name),
+                     self.base + "type = diskset\ndisk_num = %d\nset_disk_set = %d\n"
+                     "first_pfn = %d\nlast_pfn = %d\n" % (ndisk, i + 1, first, last), self.dir)
+                members.append(name)
+            perms = list(itertools.permutations(range(ndisk)))
+            if ndisk == 4:
+                rot = [tuple((i + r) % 4 for i in range(4)) for r in range(4)]
+                perms = rot + [(3, 2, 1, 0)] + rng.sample([q for q in perms if q not in rot], 5)
+            for perm in perms:
+                self.variants.append(("diskset%d-%s" % (ndisk, "".join(str(i + 1) for i in perm)),
+                                      [self.path(members[i]) for i in perm],
+                                      "%d-disk set, inclusive PFN windows %s (runs of dumped pages %s), "
+                                      "disks passed in order %s"
+                                      % (ndisk, wins, runs, [i + 1 for i in perm])))
 
     # -- ELF -----------------------------------------------------------------
     def make_elf(self):
@@ -301,8 +425,9 @@ def check(run):
     stats = run.cov["engines"].setdefault("flat-e2e", {})
     for k in range(nsc):
         seed = run.rng.randrange(1 << 30)
+        fmt = ("diskdump", "sadump", "diskdump", "elf", "sadump")[k % 5]
         try:
-            sc = Scenario(seed, work)
+            sc = Scenario(seed, work, fmt)
         except (RuntimeError, OSError, subprocess.SubprocessError) as e:
             run.violation("machinery", "could not build e2e scenario %d: %s" % (seed, e),
                           {"engine": "flat-e2e", "scenario_seed": seed}, found_input=False)
@@ -322,7 +447,7 @@ def check(run):
             if sig in seen:
                 continue
             seen.add(sig)
-            replay = {"engine": "flat-e2e", "scenario_seed": seed, "variant": i,
+            replay = {"engine": "flat-e2e", "scenario_seed": seed, "format": sc.fmt, "variant": i,
                       "variant_name": sc.variants[i][0], "recipe": sc.variants[i][2],
                       "config": sc.base, "data": open(sc.path("data")).read()[:4000],
                       "how": "bin/check C11 --replay <this file> rebuilds the scenario from its seed "
@@ -342,7 +467,7 @@ def replay(run, rp):
         return
     work = os.path.join(run.work, "e2e")
     os.makedirs(work, exist_ok=True)
-    sc = Scenario(rp["scenario_seed"], work)
+    sc = Scenario(rp["scenario_seed"], work, rp.get("format"))
     lines, impl, crashes = run_scenario(run, exe, sc)
     i = rp["variant"]
     print("plain:   " + impl[0][:600])
